@@ -358,6 +358,12 @@ class Stager:
                                     'rewrites the action' % f.where)
 
     def admits(self, value):
+        memo = self.__dict__.setdefault('_memo_admits', {})
+        if value not in memo:
+            memo[value] = self._admits(value)
+        return memo[value]
+
+    def _admits(self, value):
         """(admitted?, parent map) for a directive with this action"""
         f, g = self.work, self.g
         ev = lambda atom: eval_const_atom(self.prog, f, atom,
@@ -519,6 +525,13 @@ class Stager:
         return None
 
     def handles(self, value, listname=None, depth=0):
+        key = (value, listname, depth)
+        memo = self.__dict__.setdefault('_memo_handles', {})
+        if key not in memo:
+            memo[key] = self._handles(value, listname, depth)
+        return memo[key]
+
+    def _handles(self, value, listname=None, depth=0):
         """what happens to a directive with action `value` in the handler:
         {'effects': [(kind, call, cfg node)], 'trace': [literals of one path
         which ends without effect], 'dead': [tests on this action which are
@@ -1543,7 +1556,11 @@ def run(prog, rep, tier):
         'and dict form expand to the same keys; the eight src/tgt context '
         'tables carry every schema from the task entry of that name with the '
         'documented pwd; output stagers skip tasks which are not DONE unless '
-        'stage_on_error is set.')
+        'stage_on_error is set; an admitted directive is passed over '
+        'without a staging operation only under tests of its action (or the '
+        'tarball-name test of TARBALL directives), a branch which raises is a '
+        'refusal; the Session getters which return objects of self._cache '
+        'are not changed through a name bound to their result.')
     rep.undecided = ('file contents and remote transfers; that the backend '
         'operations do what their names say (cp/mv/ln semantics, SAGA); '
         'per-task failure isolation is decided by R05.4 (C05).')
